@@ -37,6 +37,8 @@ TPMNew ==
 TNW == Is("NW") /\ (IF Wild THEN Upd(Ev.c + 1, Cur) ELSE Upd(Ev.c + 1, NWStep(Cur, Ev.type, Ev.m, Ev.err, Ev.tx)))
 TWR == Is("WR") /\ (IF Wild THEN Upd(Ev.c + 1, Cur) ELSE Upd(Ev.c + 1, WRStep(Cur, Ev.n, Ev.ret, Ev.err, Ev.tx)))
 TWRS == Is("WRS") /\ (IF Wild THEN Upd(Ev.c + 1, Cur) ELSE Upd(Ev.c + 1, WRSStep(Cur, Ev.n, Ev.ret, Ev.err, Ev.tx)))
+(* a writer that has ended (closed, or superseded by a later message) accepts nothing and does nothing *)
+TWRO == Is("WRO") /\ (Wild \/ (~IsNil(Ev.err) /\ Ev.ret = 0 /\ Ev.tx = << >>)) /\ Upd(Ev.c + 1, Cur)
 TCL == Is("CL") /\ (IF Wild THEN Upd(Ev.c + 1, Cur) ELSE Upd(Ev.c + 1, CLStep(Cur, Ev.err, Ev.tx)))
 TWM == (Is("WM") \/ Is("WJ")) /\ (IF Wild THEN Upd(Ev.c + 1, Cur) ELSE Upd(Ev.c + 1, WMStep(Cur, Ev.type, Ev.n, Ev.m, Ev.err, Ev.tx)))
 TWJB == Is("WJB") /\ (IF Wild THEN Upd(Ev.c + 1, Cur) ELSE Upd(Ev.c + 1, WJBStep(Cur, Ev.m, Ev.err, Ev.tx)))
@@ -54,7 +56,7 @@ TEnd == /\ Is("END") /\ (cs[Ev.c + 1].err = "fatal" \/ cs[Ev.c + 1].wild)      \
         /\ UNCHANGED << cs, pms >> /\ Adv
 
 TInit == l = 1 /\ cs = << >> /\ pms = << >>
-TNext == TReset \/ TEnd \/ TPMNew \/ TNW \/ TWR \/ TWRS \/ TCL \/ TWM \/ TWJB \/ TWC \/ TWP \/ TSD \/ TXC \/ TEC \/ TSL
+TNext == TReset \/ TEnd \/ TPMNew \/ TNW \/ TWR \/ TWRS \/ TWRO \/ TCL \/ TWM \/ TWJB \/ TWC \/ TWP \/ TSD \/ TXC \/ TEC \/ TSL
 TSpec == TInit /\ [][TNext]_tvars
 
 Accepted ==
